@@ -985,7 +985,7 @@ def layout_battery():
         # lines inserted after the header: blank, blank-with-spaces, single comment, comment block
         for what, ins in (("blank lines", ["", ""]), ("whitespace-only line", [" \t "]), ("comment line", ["# one"]),
                           ("comment block", ["# one", "  # two", "#three"]), ("comment then blank", ["#c", "", "# d"])):
-            for at in sorted(set((0, 1, len(lines) // 2, len(lines)))):
+            for at in (range(len(lines) + 1) if what in ("blank lines", "comment line") else sorted(set((0, 1, len(lines) // 2, len(lines))))):
                 new = list(lines[:at]) + list(ins) + list(lines[at:])
                 # base line numbers: header is line 1, program line k (0-based) is line k + 2
                 lm = {k + 2: (k + 2 + (len(ins) if k >= at else 0)) for k in range(len(lines))}
